@@ -97,7 +97,15 @@ def codec_rows(repo: Repo, rep, P: str):
                       "SLNK must be emitted for every non-empty module slot (an empty list as an empty chunk)", "src/python/rv/project.py")
     slk = [x for x in secs["module"].writer if x.cid == "SLnK"]
     if slk:
-        cg = [canon_text(x) for x in slk[0].guards]
+        from . import c01 as _c01
+        from ..guards import canon as _canon
+
+        def cg_of(x: str) -> str:
+            try:
+                return _canon(_c01._simplify_guard(_c01._with_named_sets(repo, slk[0].rel, ast.parse(x, mode="eval").body)))
+            except SyntaxError:
+                return canon_text(x)
+        cg = [cg_of(x) for x in slk[0].guards]
         g = [x for x in cg if x.startswith(("exists_", "all_", "any(", "not (all", "not (any", "all(")) or "in_link_slots" in x]
         if g and g[0] == "exists_notin(module.in_link_slots;[-1, 0])":
             rep.ok(f"{P}.R1", "src/python/rv/project.py:Project.chunks[SLnK]", g[0], "slot chunk elided only when every slot is 0 or −1")
